@@ -219,9 +219,27 @@ def _bulk_iter(ctx, rep, rule, mod, meth, stop_exc):
                 nsent += 1
                 rep.check(rule, q + "|none-sentinel", p.done == "raise" and p.raised == stop_exc, "None marker raises %s" % stop_exc,
                           "the None end marker popped from the buffer does not raise %s" % stop_exc, loc(ctx, mod, e))
+        for i, e in calls(p, lambda f: f.startswith("self._buffer.") and f not in ("self._buffer.pop", "self._buffer.popleft")):
+            if e.func.split(".")[-1] in ("append", "appendleft", "extend", "extendleft", "insert", "clear", "remove", "reverse", "sort", "rotate"):
+                rep.violation(rule, q + "|buffer-only-consumed", "the reply buffer is modified with %s(%s) on top of what the agent returned: results are added, "
+                              "dropped or reordered" % (e.func, ", ".join(e.args)), loc(ctx, mod, e))
+        for e in p.events:
+            if (e.kind == "delete" and (e.target or "").startswith("self._buffer")) or (e.kind == "store" and (e.target or "").startswith("self._buffer[")):
+                rep.violation(rule, q + "|buffer-only-consumed", "part of the reply buffer is %s (%s): rows the iterator state has already accounted for are "
+                              "dropped or replaced" % ("deleted" if e.kind == "delete" else "overwritten", e.target), loc(ctx, mod, e))
         st = stores(p, "self._buffer")
         for i, e in st:
             nstore += 1
+            try:
+                vnode = ast.parse(e.value, mode="eval").body
+                while isinstance(vnode, ast.Await):
+                    vnode = vnode.value
+                bare = isinstance(vnode, ast.Call)
+            except SyntaxError:
+                bare = True
+            rep.check(rule, q + "|refill-is-the-reply", bare, "the buffer becomes the reply list as received",
+                      "the reply is transformed before it is buffered (%s): rows the iterator state has already accounted for are dropped or rows are added" % e.value[:80],
+                      loc(ctx, mod, e))
             rep.check(rule, q + "|refill-when-empty", holds(e.conds, "self._buffer", False), "refill reached only with an empty buffer",
                       "self._buffer is replaced while it may still hold undelivered results", loc(ctx, mod, e))
             src = [j for j, x in calls(p, is_rsp) if j < i]
@@ -506,6 +524,15 @@ def timeouts(ctx, rep, rule):
                           "create_future / add_reader inside the retry loop", "the readiness future or the reader registration is set up once outside the "
                           "retry loop: after the first stray datagram the coroutine spins without yielding and the wait_for deadline cannot fire",
                           loc(ctx, "async_client", e))
+                for x in [x for j, x in calls(p, "receiver") if j < i]:
+                    sw = [n_ for n_, r_ in x.handlers if r_ in ("@continue", None) and n_ not in ("BlockingIOError",) and n_ != "AIOTimeoutError"]
+                    retry = any(n_ == "BlockingIOError" and r_ == "@continue" for n_, r_ in x.handlers)
+                    rep.check(rule, "async_client._recv|only-BlockingIOError-retried", not sw, "errors of the receiver reach the caller",
+                              "exceptions %s raised by the receiver are swallowed by the retry loop: a decoding or SNMP error turns into a timeout" % sw,
+                              loc(ctx, "async_client", x))
+                    rep.check(rule, "async_client._recv|BlockingIOError-retried", retry, "BlockingIOError (nothing for us yet) waits for the next datagram",
+                              "BlockingIOError of the receiver is not retried: a stray datagram ends the wait although the reply may still arrive in time",
+                              loc(ctx, "async_client", x))
                 rc = [x for j, x in calls(p, "receiver") if j < i]
                 inside = [x for x in rc if m and x.origin and m.group(1) in x.origin]
                 rep.check(rule, "async_client._recv|retry-inside", bool(inside) and all(x.loops for x in inside) and len(inside) == len(rc),
